@@ -31,6 +31,10 @@ def body_factory(tier, seed):
             return
         GD.run_cases(rep, cases, PROP, PROP, ORACLE, async_modes=modes, view=VIEW, kinds=KINDS)
         GD.run_repeats(rep, cases, PROP, ("bad-req", "bad-res", "ok"))
+        # verdicts in a fresh interpreter, whole-number and fractional payloads in either order (what is rejected and
+        # what is accepted must not depend on what the process validated first)
+        from harness.props import c04
+        c04.cold_orders(rep, PROP)
         # the outbound half (call()): histories on a real endpoint under the virtual clock
         from harness import gen_history as GH
         hs = GH.HGen(tier, seed).all()[: (30 if tier == "quick" else 300)]
@@ -51,6 +55,9 @@ def run(rep, tier, seed):
 def replay(d):
     if d.get("kind") == "repeat":
         return GD.replay_repeat(d)
+    if d.get("kind") == "cold-order":
+        from harness.props import c04
+        return c04.replay_cold(d)
     from harness import impl_dispatch as D
     raw = d["frame"] if isinstance(d["frame"], str) else bytes.fromhex(d["frame"]["hex"])
     routes = d["routes"]
